@@ -8,19 +8,21 @@ counted through a shadowed open().  Oracle: a decision-list model of the documen
 import itertools
 import json
 import os
+import re
 import shutil
 import tempfile
 
 from mc.build import ci as CI
 from mc.build import im as IM
 from mc.build import misc as MISC
-from mc.core.util import call
+from mc.core.util import call, exc_name
 
 ID = "C20"
 LEVEL = "model_checking"
 REQUIRED_OUTCOMES = ["path-reused-for-another-tree", "resolved:direct", "resolved:compose", "resolved:legacy-subdir", "compose-preferred-over-direct",
                      "accessor:equals-direct-load", "accessor:legacy-name", "accessor:cached", "missing:RuntimeError-names-location",
-                     "undecodable:RuntimeError-names-file", "listdir-permutation"]
+                     "undecodable:RuntimeError-names-file", "listdir-permutation", "http:resolved-like-a-path",
+                     "http:missing:RuntimeError-names-location"]
 
 LOCS = ["direct", "compose", "sub"]                     # <root>/metadata, <root>/compose/metadata, <root>/1.0/metadata
 LOCDIR = {"direct": "", "compose": "compose", "sub": "1.0"}
@@ -90,11 +92,143 @@ def make_tree(root, config):
                         "foreign-type": text.replace('"productmd.%s"' % {"info": "composeinfo"}.get(acc, acc), '"productmd.discinfo"'),
                         "bad-version": text.replace('"version": "1.2"', '"version": "1.x"'),
                         "other-kind-1.1": t["rpms" if acc != "rpms" else "images"].replace('"version": "1.2"', '"version": "1.1"'),
-                        "bad-date": text.replace('"date": "20160102"', '"date": "2016"')}[how]
+                        "bad-date": re.sub(r'"date": "[0-9]{8}"', '"date": "2016"', text)}[how]
+                assert text != t[acc].replace(TAG, "%s-%s" % (loc, name.replace(".", "_"))), "the %s damage did not change the file" % how
             with open(os.path.join(d, name), "w") as f:
                 f.write(text)
     for s in config.get("siblings", []):
         os.makedirs(os.path.join(root, s))
+
+
+# ---- composes opened by URL: the web server is the environment ("HTTP(s) URL is also accepted") -------------------------------
+# Harness-side seam: urlopen (both urllib.request's and six.moves') is replaced by a fake that serves a virtual tree with real
+# http.client.HTTPResponse objects (application/json, no charset - what web servers send), answers 404 for anything else, or
+# does not answer at all.  Nothing touches a socket.
+
+HTTP_ROOT = "http://compose.example.com/composes/F-23"
+HTTP_LAYOUTS = {
+    "direct": {"direct": REDUCED_PATTERNS[0]},
+    "compose": {"compose": REDUCED_PATTERNS[0]},
+    "both": {"direct": REDUCED_PATTERNS[0], "compose": REDUCED_PATTERNS[0]},
+    "compose-legacy-names": {"compose": REDUCED_PATTERNS[3]},
+    "direct-partial": {"direct": REDUCED_PATTERNS[2]},
+    "nothing": {},
+}
+HTTP_SERVERS = ["answers", "unreachable"]
+
+
+def http_texts():
+    """the documents of texts(), with raw (unescaped) non-ASCII text in them, as another producer would write them"""
+    out = {}
+    for acc, text in texts().items():
+        doc = json.loads(text)
+        if acc == "info":
+            doc["payload"]["release"]["name"] = "Fédora ☃ 日本"
+        out[acc] = json.dumps(doc, ensure_ascii=False, indent=4, sort_keys=True)
+    return out
+
+
+class _FakeSocket(object):
+    def __init__(self, raw):
+        self.raw = raw
+
+    def makefile(self, *a, **k):
+        import io
+        return io.BytesIO(self.raw)
+
+
+def run_http(layout, server, slash, sequence):
+    import http.client
+    import urllib.error
+    import urllib.request
+    import six
+    import productmd.compose as pc
+    tree = {}
+    t = http_texts()
+    for loc, files in HTTP_LAYOUTS[layout].items():
+        for name in files:
+            acc = [a for a in ACCESSORS if name in NAMES[a]][0]
+            url = "/".join(x for x in (HTTP_ROOT, LOCDIR[loc], "metadata", name) if x)
+            tree[url] = t[acc].replace(TAG, "%s-%s" % (loc, name.replace(".", "_")))
+    fetched = []
+
+    def fake_urlopen(url, *a, **k):
+        url = url if isinstance(url, str) else url.full_url
+        fetched.append(url)
+        if server == "unreachable":
+            raise urllib.error.URLError(ConnectionRefusedError(111, "Connection refused"))
+        key = url.replace("//metadata", "/metadata").replace("F-23//", "F-23/")
+        if key not in tree:
+            raise urllib.error.HTTPError(url, 404, "Not Found", {}, None)
+        body = tree[key].encode("utf-8")
+        raw = b"HTTP/1.1 200 OK\r\nContent-Type: application/json\r\nContent-Length: %d\r\n\r\n" % len(body) + body
+        r = http.client.HTTPResponse(_FakeSocket(raw))
+        r.begin()
+        return r
+    saved = (urllib.request.urlopen, six.moves.urllib.request.urlopen)
+    urllib.request.urlopen = fake_urlopen
+    six.moves.urllib.request.urlopen = fake_urlopen
+    try:
+        out = {"reads": []}
+        r = call(pc.Compose, HTTP_ROOT + ("/" if slash else ""))
+        out["open"] = "ok" if r[0] == "ok" else r[1]
+        if r[0] != "ok":
+            return out
+        comp = r[1]
+        first = {}
+        for acc in sequence:
+            before = len(fetched)
+            msg = ""
+            try:
+                obj = getattr(comp, acc)
+                rd = {"accessor": acc, "result": "ok", "text": obj.dumps(), "same_object_as_first": acc in first and first[acc] is obj,
+                      "fetches": len(fetched) - before}
+                first.setdefault(acc, obj)
+            except Exception as exc:                                  # noqa
+                rd = {"accessor": acc, "result": exc_name(exc), "message": str(exc)}
+            out["reads"].append(rd)
+        return out
+    finally:
+        urllib.request.urlopen, six.moves.urllib.request.urlopen = saved
+
+
+def judge_http(layout, server, slash, sequence, o):
+    import productmd.composeinfo, productmd.images, productmd.rpms, productmd.modules      # noqa
+    cls = {"info": productmd.composeinfo.ComposeInfo, "images": productmd.images.Images, "rpms": productmd.rpms.Rpms,
+           "modules": productmd.modules.Modules}
+    if o["open"] != "ok":
+        return ["opening the compose by URL raised %s" % o["open"]]
+    locs = HTTP_LAYOUTS[layout] if server == "answers" else {}
+    loc = "compose" if "composeinfo.json" in locs.get("compose", []) else "direct"
+    files = locs.get(loc, [])
+    problems = []
+    seen = set()
+    for rd in o["reads"]:
+        acc = rd["accessor"]
+        present = [n for n in NAMES[acc] if n in files]
+        if not present:
+            if rd["result"] != "RuntimeError":
+                problems.append("%s: nothing is served for it, the accessor gave %s" % (acc, rd["result"]))
+            elif HTTP_ROOT not in rd["message"]:
+                problems.append("%s: RuntimeError does not name the location: %r" % (acc, rd["message"]))
+            continue
+        if rd["result"] != "ok":
+            problems.append("%s: %s is served but the accessor raised %s (%s)" % (acc, present[0], rd["result"], rd.get("message", "")[:80]))
+            continue
+        direct = cls[acc]()
+        direct.loads(http_texts()[acc].replace(TAG, "%s-%s" % (loc, present[0].replace(".", "_"))))
+        if rd["text"] != direct.dumps():
+            problems.append("%s: differs from loading the served file %s/%s directly" % (acc, loc, present[0]))
+        if acc in seen and not (rd["same_object_as_first"] and rd["fetches"] == 0):
+            problems.append("%s: read again: %s, %d further request(s)" % (acc, "same object" if rd["same_object_as_first"] else "another object", rd["fetches"]))
+        seen.add(acc)
+    return problems
+
+
+def eval_http(layout, server, slash, sequence):
+    o = run_http(layout, server, slash, sequence)
+    problems = judge_http(layout, server, slash, sequence, o)
+    return {"problems": problems, "observed": {"open": o["open"], "reads": [{k: v for k, v in rd.items() if k != "text"} for rd in o["reads"]]}}
 
 
 def allowed_locations(config):
@@ -271,6 +405,7 @@ def units(tier, seed):
     for k in range(4):
         us.append(("sequences", k, 4 if tier == "thorough" else 3))
     us.append(("retarget",))
+    us.append(("http",))
     return us
 
 
@@ -303,7 +438,26 @@ def _check(case, acc, tag):
     return o
 
 
+def _run_http(acc):
+    for layout in sorted(HTTP_LAYOUTS):
+        for server in HTTP_SERVERS:
+            for slash in (False, True):
+                for seq in (ACCESSORS + ACCESSORS, list(reversed(ACCESSORS))):
+                    case = {"kind": "http", "layout": layout, "server": server, "slash": slash, "sequence": seq}
+                    o = eval_http(layout, server, slash, seq)
+                    acc.ev()
+                    acc.trans(len(seq))
+                    acc.nontriv(json.dumps(case, sort_keys=True))
+                    if o["problems"]:
+                        acc.violation("http", case, o, "compose opened by URL (%s, server %s, slash=%s): %s"
+                                      % (layout, server, slash, "; ".join(o["problems"][:3])))
+                    else:
+                        acc.outcome("http:" + ("resolved-like-a-path" if server == "answers" and layout != "nothing" else "missing:RuntimeError-names-location"))
+
+
 def run_unit(unit, acc):
+    if unit[0] == "http":
+        return _run_http(acc)
     k = unit[0]
     if k == "single":
         _, loc, pats = unit
@@ -377,6 +531,8 @@ def run_unit(unit, acc):
 
 
 def replay(case):
+    if case.get("kind") == "http":
+        return eval_http(case["layout"], case["server"], case["slash"], case["sequence"])
     return eval_case(case)
 
 
